@@ -96,7 +96,9 @@ impl BranchOpsTracker {
 
         let base_compressed_end = std::cmp::min(end, base.node.prefix_compressed() as usize);
 
-        if start != base_compressed_end {
+        // The range may start past the compressed separators of the base (in its uncompressed
+        // tail): then there is no compressed chunk to keep at all.
+        if start < base_compressed_end {
             let chunk = KeepChunk {
                 start,
                 end: base_compressed_end,
@@ -119,7 +121,7 @@ impl BranchOpsTracker {
         }
 
         // Every kept uncompressed separator becomes an Insert operation.
-        for i in base_compressed_end..end {
+        for i in std::cmp::max(start, base_compressed_end)..end {
             let (key, pn) = base.key_value(i);
             self.push_insert(key, pn);
         }
